@@ -11,10 +11,16 @@ The driver
     policies (stop goroutine first / pipeline first) and compares the observation with the predicted
     outcome interval (MISMATCH when outside). Classes whose real execution is deterministic have a
     one-point interval.
+  * fork topologies (`prefix;branch;branch…`, several children below the last node of the prefix) are replayed on the
+    TREE model (Model/C07Tree.lean: nodes in the task's walk order, which the harness reports and the driver
+    compares with its own) exactly like chains; every chain case is ALSO replayed on the tree model with the chain
+    topology and must give the chain model's prediction;
+  * topologies with a union / join node (`…;=union,tail`: several PARENTS) have no model: spec oracle only.
 -/
 import Kap.Basic
 import Kap.Gen.C07
 import Kap.Model.C07
+import Kap.Model.C07Tree
 import Kap.Spec.C07
 open Kap Kap.C07
 
@@ -46,7 +52,7 @@ def parseStop : String → Option StopKind
   | "task" => some .task | "delete" => some .delete | "close" => some .close | _ => none
 
 def parseClass : String → Option Class
-  | "drained" => some .drained | "gated" => some .gated | "immediate" => some .immediate | "early" => some .early | _ => none
+  | "drained" => some .drained | "gated" => some .gated | "gatedslow" => some .gated | "immediate" => some .immediate | "early" => some .early | _ => none
 
 /-- number of points: a plain number, or `<k>c+<m>` = k edge buffers + m -/
 def parseN (t : String) : Option Nat :=
@@ -121,14 +127,14 @@ structure Run where
 def lossy : List String := ["forkDrop", "putErr", "enqDrop"]
 
 /-- Run the model under a priority policy until nothing allowed is enabled (or the fuel is spent). -/
-def runPol (cfg : Cfg) (prio : State → List Act) (allowed : State → Act → Bool) : Nat → Run → Run
+def runPol (stp : State → Act → Option State) (prio : State → List Act) (allowed : State → Act → Bool) : Nat → Run → Run
   | 0, r => r
   | fuel + 1, r =>
-    match (prio r.s).findSome? (fun a => if allowed r.s a then (step cfg r.s a).map (fun s' => (a, s')) else none) with
+    match (prio r.s).findSome? (fun a => if allowed r.s a then (stp r.s a).map (fun s' => (a, s')) else none) with
     | some (a, s') =>
       let nm := actName a
       let seen := if lossy.contains nm && !r.seen.contains nm then nm :: r.seen else r.seen
-      runPol cfg prio allowed fuel { s := s', seen := seen }
+      runPol stp prio allowed fuel { s := s', seen := seen }
     | none => r
 
 def noStop (_ : State) (a : Act) : Bool := a != .stop
@@ -148,9 +154,10 @@ def isOutput : Kind → Bool
   | .post | .alert _ | .influx _ => true
   | _ => false
 
-def predOf (r : Run) : Pred :=
+/-- `decl`: walk index → declaration index (the index the harness reports outputs under). -/
+def predOf (decl : List Nat) (r : Run) : Pred :=
   let s := r.s
-  let ns := s.nodes.zipIdx
+  let ns := s.nodes.zipIdx.map (fun p => (p.1, decl.getD p.2 p.2))
   { returned := s.ph = .finished
     leaked := (ns.filter (fun p => !p.1.done)).length + (ns.filter (fun p => !p.1.helperDone)).length + (if s.thrDone then 0 else 1)
     deliv := (ns.filter (fun p => isOutput p.1.kind)).map (fun p => (p.2, p.1.deliv))
@@ -161,7 +168,8 @@ def predOf (r : Run) : Pred :=
     seen := r.seen }
 
 /-- Replay the class of the case under one of the two extreme policies. -/
-def simulate (cfg : Cfg) (kinds : List Kind) (cls : Class) (n : Nat) (pol : Nat) : Pred :=
+def simulate (stp : State → Act → Option State) (decl : List Nat) (kinds : List Kind) (cls : Class) (n : Nat) (pol : Nat) : Pred :=
+  let predOf := predOf decl
   let fuel := 40 * (n + 10) * (kinds.length + 3) + 1000
   let s0 := init kinds n
   let stopFirst := pol == 0
@@ -169,12 +177,12 @@ def simulate (cfg : Cfg) (kinds : List Kind) (cls : Class) (n : Nat) (pol : Nat)
   let all := fun (_ : State) (a : Act) => noTick a
   match cls with
   | .drained =>
-    let r := runPol cfg prio (fun s a => noStop s a && noTick a) fuel { s := s0 }
-    predOf (runPol cfg prio all fuel r)
+    let r := runPol stp prio (fun s a => noStop s a && noTick a) fuel { s := s0 }
+    predOf (runPol stp prio all fuel r)
   | .gated =>
-    let r1 := runPol cfg prioPipe (fun s a => noStop s a && noTick a && !gateBlocks s a) fuel { s := s0 }
-    let r2 := runPol cfg prioStop (fun s a => noTick a && !gateBlocks s a) fuel r1
-    predOf (runPol cfg prio all fuel r2)
+    let r1 := runPol stp prioPipe (fun s a => noStop s a && noTick a && !gateBlocks s a) fuel { s := s0 }
+    let r2 := runPol stp prioStop (fun s a => noTick a && !gateBlocks s a) fuel r1
+    predOf (runPol stp prio all fuel r2)
   | .immediate =>
     -- all writes return first (with as little / as much pipeline progress as the policy wants)
     let rec writes (fuel : Nat) (r : Run) : Run :=
@@ -182,14 +190,83 @@ def simulate (cfg : Cfg) (kinds : List Kind) (cls : Class) (n : Nat) (pol : Nat)
       | 0 => r
       | f + 1 =>
         if r.s.toWrite = 0 then r else
-        let r' := runPol cfg (if stopFirst then prioStop else prioPipe) (fun s a => noStop s a && noTick a) 1 r
+        let r' := runPol stp (if stopFirst then prioStop else prioPipe) (fun s a => noStop s a && noTick a) 1 r
         writes f r'
-    let r1 := if stopFirst then writes fuel { s := s0 } else runPol cfg prio (fun s a => noStop s a && noTick a) fuel { s := s0 }
-    predOf (runPol cfg prio all fuel r1)
+    let r1 := if stopFirst then writes fuel { s := s0 } else runPol stp prio (fun s a => noStop s a && noTick a) fuel { s := s0 }
+    predOf (runPol stp prio all fuel r1)
   | .early =>
-    predOf (runPol cfg prio all fuel { s := s0 })
+    predOf (runPol stp prio all fuel { s := s0 })
 
 def between (x a b : Nat) : Bool := (min a b ≤ x) && (x ≤ max a b)
+
+/-- A parsed topology: the nodes in the task's WALK order (index 0 = the stream source). -/
+structure Topo where
+  kinds : List Kind
+  shapes : List NodeShape     -- without the source
+  par : List Nat              -- parent (walk index) of every node
+  decl : List Nat             -- walk index → declaration index
+  fork : Bool
+
+def parseChainTopo (chainT : String) : Option Topo := do
+  let toks ← (chainT.splitOn ",").mapM parseNode
+  let n := toks.length + 1
+  pure { kinds := Kind.pass :: toks.map (·.kind), shapes := toks.map (·.shape), par := Tree.chainPar n, decl := List.range n, fork := false }
+
+/-- `prefix;branch;branch…`: every branch hangs below the last node of the prefix. Pipeline.sort() (reverse
+post-order of a DFS over Children()) puts the branches in REVERSE declaration order; `n.outs` of the forking node
+are linked in that order. The harness reports the real walk order (`w:` token), the driver compares. -/
+def parseForkTopo (chainT : String) : Option Topo := do
+  let pre :: brs := chainT.splitOn ";" | none
+  let preT ← (pre.splitOn ",").mapM parseNode
+  let brT ← brs.mapM (fun b => (b.splitOn ",").mapM parseNode)
+  let m := preT.length
+  -- (declaration index, token) per branch, in declaration order
+  let brDecl := (brT.foldl (fun (acc : Nat × List (List (Nat × NodeTok))) b =>
+      (acc.1 + b.length, acc.2 ++ [b.zipIdx.map (fun p => (acc.1 + p.2, p.1))])) (m + 1, [])).2
+  -- (declaration index, token, parent walk index) in walk order
+  let init : List (Nat × NodeTok × Nat) := preT.zipIdx.map (fun p => (p.2 + 1, p.1, p.2))
+  let all := brDecl.reverse.foldl (fun acc b =>
+      let start := acc.length + 1
+      acc ++ b.zipIdx.map (fun q => (q.1.1, q.1.2, if q.2 = 0 then m else start + q.2 - 1))) init
+  pure { kinds := Kind.pass :: all.map (·.2.1.kind), shapes := all.map (·.2.1.shape), par := 0 :: all.map (·.2.2),
+         decl := 0 :: all.map (·.1), fork := true }
+
+/-- a failing UDF node with a node below it, in some branch (finding `failed-udf-forwarder-not-joined`) -/
+def failAbove (chainT : String) : Bool :=
+  (chainT.splitOn ";").any (fun br =>
+    let ts := br.splitOn ","
+    (ts.zipIdx.any (fun p => p.1.startsWith "fail:" && p.2 + 1 < ts.length)))
+
+/-- Topologies with a union / join node (several PARENTS): no model, the property on the observed outcome only.
+`mult` = how often an output below the merging node must have been handed every accepted point. -/
+def judgeMerge (l chainT clsT stopT : String) (obs : List String) : Verdict := Id.run do
+  let parts := chainT.splitOn ";"
+  let some last := parts.getLast? | return .badop l
+  let isUnion := last.startsWith "=union"
+  let nbranch := parts.length - 2
+  let before := ((parts.dropLast.map (fun p => (p.splitOn ",").length)).foldl (· + ·) 0)   -- nodes declared before the merging node
+  let mult := if isUnion then nbranch else 1
+  match obs with
+  | ["panic"] => return .specfail "no-crash" "the real code panicked (the harness child process died) on a union/join topology"
+  | ["stuck"] => return .specfail "stop-completes" "the harness child process got stuck on a union/join topology"
+  | accT :: stopres :: censusT :: outsT :: _lateT :: nodeErrT :: _ =>
+    let some acc := accT.toNat? | return .badop l
+    let some census := censusT.toNat? | return .badop l
+    let some outs := parseOuts outsT | return .badop l
+    let outcome : Outcome :=
+      { accepted := acc, returned := stopres == "ok" || stopres == "err", leaked := census,
+        delivered := outs.map (fun o => acc - o.missing), nodeFailed := nodeErrT == "1" }
+    let detail := s!"union/join topology: observed acc={acc} stop={stopres} census={census} outs={outsT} nodeerr={nodeErrT}"
+    match failingClause outcome with
+    | some clause => return .specfail clause detail
+    | none =>
+      if nodeErrT == "1" then return .specfail "stop-completes" s!"a node of a healthy union/join pipeline failed: {detail}"
+      for o in outs do
+        let m := if o.idx > before then mult else 1
+        if o.total != m * o.distinct || o.distinct != acc then
+          return .specfail "accepted-points-delivered" s!"output {o.idx} must have been handed every point {m} time(s): {detail}"
+      return .ok true ["merge-spec-only", if isUnion then "union" else "join", clsT, stopT]
+  | _ => return .mismatch s!"the harness could not run the union/join case: {l}"
 
 def judge (_id : String) (lines : Array String) : Verdict := Id.run do
   if lines.size != 1 then return .badop s!"expected one op line, got {lines.size}"
@@ -203,47 +280,43 @@ def judge (_id : String) (lines : Array String) : Verdict := Id.run do
       else return .specfail "no-data-race" s!"the Go race detector reported {races} data race(s) in {k} real-task cases (stderr of the check)"
     | _ => return .mismatch s!"the race-detector run could not be made: {obs}"
   let [_, chainT, stopT, clsT, nT] := opT | return .badop l
-  -- fork topologies (`prefix;branch;branch`): the model is a chain, so these cases are judged by the SPEC ORACLE
-  -- ONLY (the property on the observed outcome); there is no model prediction for them
-  if chainT.contains ';' then
-    match obs with
-    | ["panic"] =>
-      -- a failing UDF node with a node below it, in some branch: the recorded finding
-      let failAbove := (chainT.splitOn ";").any (fun br =>
-        let ts := br.splitOn ","
-        (ts.zipIdx.any (fun p => p.1.startsWith "fail:" && p.2 + 1 < ts.length)))
-      if failAbove then return .known "failed-udf-forwarder-not-joined" "the real code panicked on a fork topology (forwarding goroutine of a UDF node whose process died)"
-      return .specfail "no-crash" "the real code panicked (the harness child process died) on a fork topology"
-    | [accT, stopres, censusT, outsT, _lateT, nodeErrT] =>
-      let some acc := accT.toNat? | return .badop l
-      let some census := censusT.toNat? | return .badop l
-      let some outs := parseOuts outsT | return .badop l
-      let outcome : Outcome :=
-        { accepted := acc, returned := stopres == "ok" || stopres == "err", leaked := census,
-          delivered := outs.map (fun o => acc - o.missing), nodeFailed := nodeErrT == "1" }
-      match failingClause outcome with
-      | some clause => return .specfail clause s!"fork topology: observed acc={acc} stop={stopres} census={census} outs={outsT} nodeerr={nodeErrT}"
-      | none =>
-        if outs.any (fun o => o.total != o.distinct) then return .mismatch s!"fork topology: an output was handed a point twice: {outsT}"
-        return .ok true (["fork-spec-only", clsT, stopT] ++ (if nodeErrT == "1" then ["fork-branch-failed"] else ["fork-healthy"]))
-    | _ => return .mismatch s!"the harness could not run the fork case: {l}"
-  let some toks := (chainT.splitOn ",").mapM parseNode | return .badop l
+  if chainT.contains '=' then return judgeMerge l chainT clsT stopT obs
+  let isFork := chainT.contains ';'
+  let some topo := (if isFork then parseForkTopo chainT else parseChainTopo chainT) | return .badop l
   let some stop := parseStop stopT | return .badop l
   let some cls := parseClass clsT | return .badop l
   let some n := parseN nT | return .badop l
-  let kinds := Kind.pass :: toks.map (·.kind)
-  let input : Input := { chain := toks.map (·.shape), stop := stop, cls := cls, n := n }
+  let kinds := topo.kinds
+  let input : Input := { chain := topo.shapes, stop := stop, cls := cls, n := n }
   let cfg : Cfg := { cap := edgeCap, viaClose := stop == .close, hookLock := false, alertLeak := false }
-  -- model predictions for this class
-  let pS := simulate cfg kinds cls n 0
-  let pP := simulate cfg kinds cls n 1
-  let hasFail := toks.any (fun t => t.shape == .failing)
-  let pF := if hasFail then simulate cfg kinds cls n 2 else pP
+  -- model predictions for this class: forks on the tree model, chains on the chain model
+  let stp : State → Act → Option State := if isFork then Tree.step cfg topo.par else step cfg
+  let pS := simulate stp topo.decl kinds cls n 0
+  let pP := simulate stp topo.decl kinds cls n 1
+  let hasFail := topo.shapes.any (· == .failing)
+  let pF := if hasFail then simulate stp topo.decl kinds cls n 2 else pP
+  -- the tree model on the chain topology is the chain model
+  if !isFork then
+    let tS := simulate (Tree.step cfg topo.par) topo.decl kinds cls n 0
+    let tF := if hasFail then simulate (Tree.step cfg topo.par) topo.decl kinds cls n 2 else tS
+    let same (a b : Pred) : Bool := a.returned == b.returned && a.leaked == b.leaked && a.deliv == b.deliv &&
+      a.lostIngest == b.lostIngest && a.lostAt == b.lostAt && a.failed == b.failed && a.crashed == b.crashed && a.seen == b.seen
+    if !(same tS pS) || (hasFail && !(same tF pF)) then
+      return .mismatch s!"the tree model on the chain topology differs from the chain model: chain deliv={pS.deliv} lost={pS.lostAt} returned={pS.returned}; tree deliv={tS.deliv} lost={tS.lostAt} returned={tS.returned}"
+  -- Barrier nodes put CONTROL messages (BarrierMessage from the timer goroutine into the child edge, DeleteGroup into
+  -- the node's own input edge and on downstream) into the same bounded edges; the model does not count them. Against
+  -- blocked outputs they take slots away from points, so fewer points fit below the TaskMaster's ingest edge than the
+  -- model says and StopTask/DeleteTask lose the rest at the ingest (the recorded finding; never under Close, which
+  -- drains that edge). For such chains the prediction is widened by a stop-first run with every edge `ctlSlack` slots
+  -- smaller (witness: corpus finding-ingest…barrier-control-messages, class `gatedslow`).
+  let ctlSlack := 40
+  let barrierCtl := kinds.any isBarrier && stop != .close && (cls == .gated || cls == .immediate) && !isFork
+  let pB := if barrierCtl then simulate (step { cfg with cap := edgeCap - ctlSlack }) topo.decl kinds cls n 0 else pS
   let canHang := !pS.returned || !pP.returned || !pF.returned
   let mustHang := !pS.returned && !pP.returned && !pF.returned
   let anyFailed := pS.failed || pP.failed || pF.failed
-  let mut br : List String := [clsT, stopT] ++ (toks.map (fun t => (t.kind |> fun k => match k with
-      | .barrier _ => "k-barrier" | .pass => "k-pass" | .post => "k-post" | .alert _ => "k-alert" | .influx _ => "k-influx" | .udf => "k-udf" | .fail _ => "k-fail" | .loop => "k-loop"))).eraseDups
+  let mut br : List String := [clsT, stopT] ++ (kinds.drop 1 |>.map (fun k => match k with
+      | .barrier _ => "k-barrier" | .pass => "k-pass" | .post => "k-post" | .alert _ => "k-alert" | .influx _ => "k-influx" | .udf => "k-udf" | .fail _ => "k-fail" | .loop => "k-loop")).eraseDups
   for nm in (pS.seen ++ pP.seen).eraseDups do br := br ++ [nm]
   if pS.lostIngest > 0 || pP.lostIngest > 0 then br := br ++ ["ingest-loss"]
   if !pS.lostAt.isEmpty || !pP.lostAt.isEmpty then br := br ++ ["node-loss"]
@@ -251,13 +324,23 @@ def judge (_id : String) (lines : Array String) : Verdict := Id.run do
   if anyFailed then br := br ++ ["node-failed"]
   if pS.deliv == pP.deliv && pF.deliv == pP.deliv then br := br ++ ["deterministic"] else br := br ++ ["interval"]
   if n > edgeCap then br := br ++ ["backlog>cap"]
+  if barrierCtl then br := br ++ ["barrier-ctl-slack"]
+  if isFork then br := br ++ ["fork-tree-model", if anyFailed then "fork-branch-failed" else "fork-healthy"]
+  else br := br ++ ["tree=chain"]
+  let failFwd := if isFork then failAbove chainT else devFailForward input
+  -- fork cases: the harness reports the walk order of the real task after the six observation tokens
+  let (obs, walkT) := if isFork && obs.length == 7 then (obs.take 6, obs.getD 6 "") else (obs, "")
+  if isFork && walkT != "" then
+    let mine := "w:" ++ ".".intercalate (topo.decl.map toString)
+    if walkT != mine then
+      return .mismatch s!"walk order of the real task {walkT} differs from the model's topology {mine}"
   -- the observation
   match obs with
   | ["invalid"] => return .mismatch s!"the harness could not run the case: {l}"
   | ["panic"] =>
     -- the process died: the property is violated; no recorded deviation allows it
     let canCrash := pS.crashed || pP.crashed || pF.crashed
-    if devFailForward input then return .known "failed-udf-forwarder-not-joined" "the real code panicked (send on closed channel from the forwarding goroutine of a UDF node whose process died)"
+    if failFwd then return .known "failed-udf-forwarder-not-joined" "the real code panicked (send on closed channel from the forwarding goroutine of a UDF node whose process died)"
     return .specfail "no-crash" s!"the real code panicked (the harness child process died); model can crash: {canCrash}"
   | ["stuck"] => return .specfail "stop-completes" "the harness child process got stuck"
   | [accT, stopres, censusT, outsT, lateT, nodeErrT] =>
@@ -284,26 +367,27 @@ def judge (_id : String) (lines : Array String) : Verdict := Id.run do
           | some a, some b, some c =>
             -- the model's UDF node is ONE stage; the real one is three goroutines (reader, process, forwarder)
             -- holding a message each, and Abort drops the two that are not in the forwarder
-            let slack := 2 * ((kinds.take o.idx).filter (· == Kind.udf)).length
-            if !(min a (min b c) ≤ o.total + slack && o.total ≤ max a (max b c)) then return false
+            let slack := if isFork then 0 else 2 * ((kinds.take o.idx).filter (· == Kind.udf)).length
+            let lo := match pB.deliv.lookup o.idx with | some d => min d (min a (min b c)) | none => min a (min b c)
+            if !(lo ≤ o.total + slack && o.total ≤ max a (max b c)) then return false
             if o.total != o.distinct then return false
             if o.total + o.missing != acc && !nodeErr then return false
           | _, _, _ => return false
         if outs.length != pS.deliv.length then return false
       return true
-    let detail := s!"observed acc={acc} stop={stopres} census={census} outs={outsT} nodeerr={nodeErrT}; model stop-first returned={pS.returned} leaked={pS.leaked} deliv={pS.deliv} lostIngest={pS.lostIngest} lost={pS.lostAt}; pipeline-first returned={pP.returned} leaked={pP.leaked} deliv={pP.deliv} lostIngest={pP.lostIngest} lost={pP.lostAt}" ++ (if hasFail then s!"; failing-first deliv={pF.deliv} lost={pF.lostAt}" else "")
+    let detail := s!"observed acc={acc} stop={stopres} census={census} outs={outsT} nodeerr={nodeErrT}; model stop-first returned={pS.returned} leaked={pS.leaked} deliv={pS.deliv} lostIngest={pS.lostIngest} lost={pS.lostAt}; pipeline-first returned={pP.returned} leaked={pP.leaked} deliv={pP.deliv} lostIngest={pP.lostIngest} lost={pP.lostAt}" ++ (if hasFail then s!"; failing-first deliv={pF.deliv} lost={pF.lostAt}" else "") ++ (if barrierCtl then s!"; control messages of the barrier node (edges {ctlSlack} slots smaller) deliv={pB.deliv} lostIngest={pB.lostIngest}" else "")
     match failingClause outcome with
     | some clause =>
       if !inModel then return .specfail clause detail
       -- explained by a recorded deviation?
       if clause == "stop-completes" then
         if devLoop input then return .known "loopback-stop-deadlock" detail
-        if devUdfFail input then return .known "udf-above-failed-node-blocks-stop" detail
+        if devUdfFail input && !isFork then return .known "udf-above-failed-node-blocks-stop" detail
         return .specfail clause detail
       if clause == "accepted-points-delivered" then
         if devUdf input && (pS.lostAt.any (fun p => kinds[p.1]? == some .udf)) then
           return .known "udf-stop-aborts-backlog" detail
-        if devIngest input && pS.lostIngest > 0 then return .known "ingest-edge-not-drained-on-stop" detail
+        if devIngest input && (pS.lostIngest > 0 || pB.lostIngest > 0) then return .known "ingest-edge-not-drained-on-stop" detail
         return .specfail clause detail
       return .specfail clause detail
     | none =>
